@@ -177,6 +177,13 @@ def run_aligner(rp, mask):
     """returns (fail, key, mapping, aligned)"""
     tag = '%s:%s:%s' % (rp['which'], rp['metric'], rp['algo'])
     b = mask.tobytes()
+    # history: another aligner with the same configuration was used before on a recording with fewer bins (band-limited
+    # mask); whether that call is refused or not, it must not influence this one
+    try:
+        Fs = max(1, (mask.shape[1] // 2) | 1)
+        build(rp).calculate_mapping(np.ascontiguousarray(mask[:, :Fs]))
+    except Exception:
+        pass
     try:
         al = build(rp)
         mapping = np.asarray(al.calculate_mapping(mask))
@@ -185,6 +192,10 @@ def run_aligner(rp, mask):
         return '%s raised %s: %s' % (rp['which'], type(e).__name__, str(e)[:200]), 'loop:raises:' + tag, None, None
     if mask.tobytes() != b:
         return 'caller array modified', 'loop:mutates:' + tag, None, None
+    cv = core.container_variants(lambda m_: al.calculate_mapping(m_), [mask], mapping,
+                                 lambda r_, e: np.array_equal(np.asarray(r_), e), recast_allow=('int',))
+    if cv:
+        return '%s: %s' % (rp['which'], cv), 'loop:container:' + tag, None, None
     return None, None, mapping, aligned
 
 
@@ -294,6 +305,12 @@ def restore_case(rng, tier, i, which=None, F=None, default=False, identity=False
         return None
     jit = float(rng.choice([0.0, 0.03, 0.1]))
     ref = a[:, None, :] * (1.0 + jit * (2.0 * rng.random((K, F, T)) - 1.0))
+    if i % 4 == 3:
+        # binary masks, integer typed as in the library's own examples: every frame belongs to exactly one class
+        lab = np.concatenate([np.arange(K), np.arange(K), rng.integers(0, K, T - 2 * K)]) if T >= 2 * K else np.arange(T) % K
+        lab = lab[rng.permutation(len(lab))]
+        ref = np.broadcast_to((lab[None, :] == np.arange(K)[:, None])[:, None, :], (K, F, T)).astype(np.int8)
+        jit = 0.0
     rp = {'fn': 'restore', 'which': which, 'metric': metric, 'algo': 'greedy' if rng.random() < 0.7 else 'optimal',
           'ref': ref, 'identity': identity, 'compare': F <= (129 if big else 65)}
     if identity:
